@@ -123,6 +123,17 @@ func c12Churn(rng *rand.Rand) {
 		var d C12Doc
 		_ = json.Unmarshal([]byte(c12DocText(rng, 1)), &d)
 		_ = json.NewDecoder(strings.NewReader(string(b) + " " + string(b))).Decode(&back)
+		// every decoding entry point, with inputs shorter and longer than what was decoded before (a
+		// pooled buffer that is re-used shows as the earlier result's strings changing)
+		small := []byte(`{"pad":"` + strings.Repeat("Y", rng.Intn(40)) + `","l":[1]}`)
+		for _, in := range [][]byte{small, b} {
+			var x1, x2, x3 interface{}
+			_ = json.UnmarshalNoEscape(in, &x1)
+			_ = json.UnmarshalContext(context.Background(), in, &x2)
+			_ = json.UnmarshalWithOption(in, &x3, json.DecodeFieldPriorityFirstWin())
+			var d2 C12Doc
+			_ = json.UnmarshalNoEscape([]byte(c12DocText(rng, 1)), &d2)
+		}
 	}
 }
 
